@@ -168,6 +168,14 @@ def check_adjoint(op, site, first, stats, depth=2, approx=False):
     if n > MAXDIM or m > MAXDIM:
         stats['skipped'] += 1
         return
+    # history: the operator as it acts BEFORE its adjoint is requested for the first time
+    pre = None
+    if depth == 2:
+        try:
+            pre = [S.to_flat(op(S.from_flat(dom, e))) for e in S.basis(dom)]
+            stats['evals'] += len(pre)
+        except Exception:
+            pre = None
     try:
         adj = op.adjoint
     except (NotImplementedError, odl.OpNotImplementedError):
@@ -265,6 +273,33 @@ def check_adjoint(op, site, first, stats, depth=2, approx=False):
         pass
     except Exception as e:
         first.setdefault((site, 'adjoint_adjoint_raises:' + type(e).__name__), repr(e)[:300])
+    # history clauses: requesting, building and using A.adjoint and A.adjoint.adjoint must not
+    # change what A does, and A.adjoint requested again must act like the one requested first
+    if depth == 2:
+        try:
+            for j, x in enumerate(ex):
+                b = S.to_flat(Ax[j])
+                for what, a in (('before its adjoint was first requested',
+                                 pre[j] if pre is not None else b),
+                                ('after its adjoint and adjoint.adjoint were built and used',
+                                 S.to_flat(op(x)))):
+                    if a.shape != b.shape or not np.all(np.abs(a - b) <= tol * (1 + np.abs(b).max())):
+                        first.setdefault((site, 'operator_changed_by_building_or_using_its_adjoint'),
+                                         'A x = %s right after A.adjoint was requested, but %s %s, '
+                                         'x = basis vector %d' % (b.tolist(), a.tolist(), what, j))
+                        break
+                stats['evals'] += 1
+            adj2 = op.adjoint
+            for i, y in enumerate(ey):
+                a, b = S.to_flat(adj2(y)), S.to_flat(By[i])
+                stats['evals'] += 1
+                if a.shape != b.shape or not np.all(np.abs(a - b) <= tol * (1 + np.abs(b).max())):
+                    first.setdefault((site, 'adjoint_requested_again_differs'),
+                                     'A.adjoint(y) = %s at first, %s for A.adjoint requested again '
+                                     'later, y = basis vector %d' % (b.tolist(), a.tolist(), i))
+                    break
+        except Exception as e:
+            first.setdefault((site, 'history_reevaluation_raises:' + type(e).__name__), repr(e)[:300])
     if depth > 1 and adj is not op:
         check_adjoint(adj, site + '.adjoint', first, stats, depth - 1, approx)
 
